@@ -814,6 +814,36 @@ func c03CallOptions(c *core.Ctx) {
 		nH += len(core.CallsIn(fn, func(_ *ssa.Call, ci core.CallInfo) bool { return ci.Name == "SetHeaders" && ci.Recv == "CallOptions" }))
 		nT += len(core.CallsIn(fn, func(_ *ssa.Call, ci core.CallInfo) bool { return ci.Name == "SetTrailers" && ci.Recv == "CallOptions" }))
 	}
+	// ... and the fan-out is not made conditional on one KIND of option being present: a call that supplies only
+	// grpc.Trailer (or only grpc.Header) options gets them filled. The usual guard "any header or trailer option"
+	// requires neither; a guard that requires len(Headers) > 0 (or len(Trailers) > 0) leaves the other kind empty.
+	for _, fn := range p.LibFuncs("httpgrpc") {
+		for _, call := range core.CallsIn(fn, func(call *ssa.Call, ci core.CallInfo) bool {
+			if ci.Static == nil || !core.PkgIs(ci.Static, "httpgrpc") {
+				return false
+			}
+			nh := len(core.CallsIn(ci.Static, func(_ *ssa.Call, c2 core.CallInfo) bool { return c2.Name == "SetHeaders" && c2.Recv == "CallOptions" }))
+			nt := len(core.CallsIn(ci.Static, func(_ *ssa.Call, c2 core.CallInfo) bool { return c2.Name == "SetTrailers" && c2.Recv == "CallOptions" }))
+			return nh > 0 && nt > 0
+		}) {
+			var req []string
+			for _, ef := range core.DominatingFacts(call) {
+				for _, f := range impliedFacts(ef.Fact, 0) {
+					if (f.Op == token.GTR || f.Op == token.NEQ) && !f.Neg {
+						if lc, ok := f.X.(*ssa.Call); ok {
+							if b, isB := lc.Call.Value.(*ssa.Builtin); isB && b.Name() == "len" {
+								if base, fld, isF := core.FieldOf(lc.Call.Args[0]); isF && core.NamedOf(base.Type()) == "CallOptions" {
+									req = append(req, fld)
+								}
+							}
+						}
+					}
+				}
+			}
+			sort.Strings(req)
+			c.Check(len(req) == 0, core.FuncName(fn)+":fan-out-guard", call.Pos(), "the fan-out of reply metadata does not require a particular kind of option to be present", fmt.Sprintf("the fan-out of reply metadata runs only if the option list(s) %v are non-empty: a call that supplies only the other kind of option (only grpc.Trailer, or only grpc.Header) gets nothing", req))
+		}
+	}
 	c.Check(nH >= 2 && nT >= 2, "httpgrpc:fan-out-sites", token.NoPos, fmt.Sprintf("HTTP client hands headers to the options at %d site(s) and trailers at %d (unary and streaming)", nH, nT), fmt.Sprintf("HTTP client calls SetHeaders %d× and SetTrailers %d×: expected both on the unary and the streaming path", nH, nT))
 }
 
@@ -1555,6 +1585,92 @@ func helperReturns(call *ssa.Call, idx int) []ssa.Value {
 		if idx < len(r.Results) {
 			out = append(out, r.Results[idx])
 		}
+	}
+	return out
+}
+
+// impliedFacts: the facts that certainly hold when f holds, looking through
+// bool helpers of the module and short-circuit conjunctions: f itself, and,
+// where f says "call(...) is true" for a module function, what every
+// true-returning path of that function establishes.
+func impliedFacts(f core.Fact, depth int) []core.Fact {
+	out := []core.Fact{f}
+	if depth > 2 || f.Op != token.ILLEGAL || f.Neg {
+		return out
+	}
+	call, ok := f.X.(*ssa.Call)
+	if !ok {
+		return out
+	}
+	fn := call.Call.StaticCallee()
+	if fn == nil || fn.Blocks == nil || fn.Pkg == nil || !strings.HasPrefix(fn.Pkg.Pkg.Path(), core.ModulePath) {
+		return out
+	}
+	// facts common to all ways the function returns true
+	var common []core.Fact
+	first := true
+	addWay := func(fs []core.Fact) {
+		if first {
+			common, first = fs, false
+			return
+		}
+		var keep []core.Fact
+		for _, a := range common {
+			for _, b := range fs {
+				if a.Op == b.Op && a.Neg == b.Neg && (a.X == b.X || core.SameVal(a.X, b.X)) && (a.Y == b.Y || core.SameVal(a.Y, b.Y)) {
+					keep = append(keep, a)
+					break
+				}
+			}
+		}
+		common = keep
+	}
+	var waysTrue func(v ssa.Value, at ssa.Instruction, acc []core.Fact, d int)
+	waysTrue = func(v ssa.Value, at ssa.Instruction, acc []core.Fact, d int) {
+		if d > 6 {
+			addWay(acc)
+			return
+		}
+		if b, isC := core.ConstBool(v); isC {
+			if b {
+				addWay(acc)
+			}
+			return
+		}
+		if phi, isPhi := v.(*ssa.Phi); isPhi {
+			for i, e := range phi.Edges {
+				pred := phi.Block().Preds[i]
+				term := pred.Instrs[len(pred.Instrs)-1]
+				fs := append([]core.Fact{}, acc...)
+				for _, ef := range core.DominatingFacts(term) {
+					fs = append(fs, ef.Fact)
+				}
+				if iff, isIf := term.(*ssa.If); isIf {
+					for si, sb := range pred.Succs {
+						if sb == phi.Block() && pred.Succs[0] != pred.Succs[1] {
+							fs = append(fs, core.CondFact(iff.Cond, si == 0))
+						}
+					}
+				}
+				waysTrue(e, term, fs, d+1)
+			}
+			return
+		}
+		fs := append(append([]core.Fact{}, acc...), core.CondFact(v, true))
+		addWay(fs)
+	}
+	for _, r := range core.Returns(fn) {
+		if len(r.Results) != 1 {
+			return out
+		}
+		var acc []core.Fact
+		for _, ef := range core.DominatingFacts(r) {
+			acc = append(acc, ef.Fact)
+		}
+		waysTrue(r.Results[0], r, acc, 0)
+	}
+	for _, cf := range common {
+		out = append(out, impliedFacts(cf, depth+1)...)
 	}
 	return out
 }
